@@ -1,4 +1,5 @@
 import Tickit.Model.XTermDrv
+import Tickit.Gen.XTermFacts
 import Tickit.Driver.Common
 /-
   Engine `xterm` (C09).
@@ -192,7 +193,7 @@ def parseObs (impl : String) : Option (List UInt8 × Int) :=
 def b01 (b : Bool) : String := if b then "1" else "0"
 
 def doRequest (st : St) (req : Request) (impl : String) : St × String × String :=
-  let (ret, bytes) := request st.drv req
+  let (ret, bytes) := request ⟨Gen.XTermFacts.scrollGuard, Gen.XTermFacts.eraseKeepsCount⟩ st.drv req
   let mobs := s!"{bytesHex bytes} ret={b01 ret}"
   match parseObs impl with
   | none => (st, mobs, "")     -- CRASH / malformed: the comparison reports it
